@@ -625,6 +625,44 @@ def _depends(fi: FunctionInfo, ret: ast.Return, local: str) -> bool:
 
 
 # --------------------------------------------------------------------------------------------------------------------
+def savepath_pass(run: Run, pkg: Package, funcs: List[FunctionInfo]) -> int:
+    """R-SAVE-PATH: a routine that writes its result to a file named by one of its parameters does so on every path that returns
+    a result.  A `return <value>` that precedes the first save site (an early exit / fast path) hands back a value without
+    writing the requested file - a file left over from an earlier call then disagrees with what was returned."""
+    n = 0
+    for fi in funcs:
+        params = set(fi.params)
+        saves = []
+        for c in ast.walk(fi.node):
+            if isinstance(c, ast.Call) and isinstance(c.func, ast.Attribute) and c.func.attr in ("save", "savetxt", "to_csv") and c.args:
+                names = {m.id for m in ast.walk(c.args[0]) if isinstance(m, ast.Name)} & params
+                if names:
+                    saves.append((c, names))
+        if not saves:
+            continue
+        n += 1
+        first = min(c.lineno for c, _ in saves)
+        fparams = set().union(*[nm for _, nm in saves])
+        par = parents_map(fi.node)
+        for r in ast.walk(fi.node):
+            if not (isinstance(r, ast.Return) and r.value is not None and not isinstance(r.value, ast.Constant) and r.lineno < first):
+                continue
+            # an exit taken because no file was requested is fine
+            guarded = False
+            for a in _ancestors(r, par, fi.node):
+                if isinstance(a, ast.If) and {m.id for m in ast.walk(a.test) if isinstance(m, ast.Name)} & fparams:
+                    guarded = True
+            if guarded:
+                continue
+            run.ob("R-SAVE-PATH", short(fi.qual), f"return@{norm_stmt(r)[:60]}", False,
+                   "when an output file is requested it is written on every path that returns a result",
+                   f"return at line {r.lineno} precedes the first write to the file named by {sorted(fparams)} (line {first})",
+                   witness=f"a call taking this path with {sorted(fparams)[0]} set returns {ast.unparse(r.value)[:40]} and writes nothing: a file of the same name from an earlier call "
+                           f"keeps its old content", loc=fi.loc(r), sound=True)
+    return n
+
+
+# --------------------------------------------------------------------------------------------------------------------
 def dictorder_pass(run: Run, pkg: Package, funcs: List[FunctionInfo]) -> int:
     """R-DICTORDER: the values of a dictionary keyed by type id (masses, diameters, ...) turned into a positional array
     (`np.array(list(d.values()))`, `np.fromiter(d.values(), ...)`) carry the dictionary's INSERTION order.  Looking entries up by
@@ -806,5 +844,6 @@ def state_pass(run: Run, pkg: Package, everything: bool = False) -> None:
         "usecols_reads": usecols_pass(run, pkg, funcs),
         "falsy_defaults": falsy_pass(run, pkg, funcs),
         "dict_value_arrays": dictorder_pass(run, pkg, funcs),
+        "saving_routines": savepath_pass(run, pkg, funcs),
     }
     run.extra["state_rules"] = {"functions": len(funcs), **counts}
